@@ -10,7 +10,7 @@ use shred::{Par, ParSeq, ResourceId, RunWithPool, Seq, World};
 
 use crate::{
     model::{Res, Rng},
-    real::{pool, rid, Ctx, EvK, LogSys, Zst0, Zst1, Zst2, ZCTX, ZUID},
+    real::{pool, rid, Ctx, EvK, LogSys, LogSysD, Zst0, Zst1, Zst2, ZCTX, ZUID},
 };
 
 #[derive(Clone, Debug, PartialEq)]
@@ -168,6 +168,11 @@ impl B<'_> {
                         _ => Dyn(Box::new(Zst2), 3),
                     };
                     return (d, Built::Leaf(uid), acc);
+                }
+                if uid % 2 == 1 {
+                    // a leaf whose accessor TYPE has an (empty) default while the system declares per-instance ids
+                    let s = LogSysD::new(uid, r.iter().map(|x| rid(*x)).collect(), w.iter().map(|x| rid(*x)).collect(), self.ctx.clone());
+                    return (Dyn(Box::new(s), 0), Built::Leaf(uid), acc);
                 }
                 let s = LogSys::new(uid, r.iter().map(|x| rid(*x)).collect(), w.iter().map(|x| rid(*x)).collect(), 3, self.ctx.clone());
                 (Dyn(Box::new(s), 0), Built::Leaf(uid), acc)
